@@ -146,6 +146,23 @@ func c05Constructs() []c05Construct {
 		loop("closure-capture-range", 1, func(g *c05Gen, d int, h func(int) string) string {
 			return fmt.Sprintf("{\nvar fs%d []func() int\n@L@for i%d, v%d := range []int{7, 8, 9} {\nfs%d = append(fs%d, func() int { return i%d*100 + v%d })\nx++\n%s\n}\nfor _, f := range fs%d {\nO(f())\n}\n}", d, d, d, d, d, d, d, h(0), d)
 		}),
+		loop("for3-bodylocal", 1, func(g *c05Gen, d int, h func(int) string) string {
+			// the loop header and the body both own variables: jumps out of nested ones cross many frames
+			return fmt.Sprintf("for i%d := 0; i%d < 2 && Fuel(); i%d++ {\nb%d := i%d + 10\nx++\n%s\nO(b%d)\n}", d, d, d, d, d, h(0), d)
+		}),
+		loop("range-bodylocal", 1, func(g *c05Gen, d int, h func(int) string) string {
+			return fmt.Sprintf("for i%d, v%d := range []int{3, 4} {\nb%d := i%d*10 + v%d\nx++\n%s\nO(b%d)\n}", d, d, d, d, d, h(0), d)
+		}),
+		sw("switch-caselocal", 2, func(g *c05Gen, d int, h func(int) string) string {
+			return fmt.Sprintf("switch s%d := x %% 3; s%d {\ncase 0:\nb%d := s%d + 20\n%s\nO(b%d)\ncase 1:\nc%d := s%d + 30\n%s\nO(c%d)\ndefault:\n%s\n}", d, d, d, d, h(0), d, d, d, h(1), d, g.t())
+		}),
+		sw("switch-mixed-const-call-cases", 2, func(g *c05Gen, d int, h func(int) string) string {
+			// constants and side-effecting expressions mixed inside one clause: evaluation is left-to-right, top-to-bottom, until a match
+			return fmt.Sprintf("switch x %% 5 {\ncase 0, Ti(%d, 7), 1:\n%s\ncase 2:\n%s\ncase Ti(%d, 3), 4:\n%s\ncase 9, Ti(%d, 8):\n%s\n}", g.n(), h(0), g.t(), g.n(), h(1), g.n(), g.t())
+		}),
+		sw("switch-notag-case-lists", 1, func(g *c05Gen, d int, h func(int) string) string {
+			return fmt.Sprintf("switch {\ncase Tb(%d, x == 1), Tb(%d, x == 2):\n%s\ncase Tb(%d, x > 2), true:\n%s\n}", g.n(), g.n(), h(0), g.n(), g.t())
+		}),
 		sw("switch-tag-fallthrough", 2, func(g *c05Gen, d int, h func(int) string) string {
 			return fmt.Sprintf("switch Ti(%d, x) %% 3 {\ncase 0:\n%s\ncase 1:\n%s\nfallthrough\ncase 2:\n%s\ndefault:\n%s\n}", g.n(), h(0), g.t(), h(1), g.t())
 		}),
@@ -300,6 +317,17 @@ func c05Gen_(c *core.Ctx) []oracle.Prog {
 	all := c05Constructs()
 	progs := c05Programs(1, all, "a")
 	progs = append(progs, c05Programs(2, all, "b")...)
+	{
+		// depth 3 over the constructs whose header AND body own variables (jumps crossing >= 5 frames)
+		var deep []c05Construct
+		keep := map[string]bool{"for3-bodylocal": true, "range-bodylocal": true, "switch-caselocal": true, "block-shadow": true, "if-init-elseif": true, "switch-mixed-const-call-cases": true}
+		for _, k := range all {
+			if keep[k.name] {
+				deep = append(deep, k)
+			}
+		}
+		progs = append(progs, c05Programs(3, deep, "d")...)
+	}
 	if c.Thorough() {
 		// depth 3 over a reduced alphabet: one representative per jump-patching family
 		var red []c05Construct
@@ -318,8 +346,8 @@ func c05Gen_(c *core.Ctx) []oracle.Prog {
 func init() {
 	registerDiff(&diffSpec{
 		ID: "C05",
-		Rule: "all nestings (construct, hole)^d of 33 control constructs (if/else-if/init, 4 for forms, 13 range forms (incl. assignment to existing variables, key modified by the body), 7 switch forms incl. fallthrough/default positions/>=5 cases, 2 type switches, 2 selects, block, backward goto, func literal) " +
-			"for d=1,2 (thorough: d=3 over 11 constructs) × every jump/plain leaf valid at the innermost hole (trace point, assignment, [conditional] break/continue, labelled break/continue to every enclosing target, [conditional] return); " +
+		Rule: "all nestings (construct, hole)^d of 38 control constructs (if/else-if/init, 4 for forms, 13 range forms (incl. assignment to existing variables, key modified by the body), 7 switch forms incl. fallthrough/default positions/>=5 cases, 2 type switches, 2 selects, block, backward goto, func literal) " +
+			"for d=1,2, d=3 over the 6 constructs whose header and body both own variables (thorough: also d=3 over 11 further constructs) × every jump/plain leaf valid at the innermost hole (trace point, assignment, [conditional] break/continue, labelled break/continue to every enclosing target, [conditional] return); " +
 			"each program records a trace of executed points and final variables; non-trivial = distinct (program, Go trace) pairs whose trace has at least two points",
 		Gen: c05Gen_,
 		// classic subset: no type switches on non-default kinds, no select/goroutine constructs
